@@ -215,6 +215,26 @@ func runC14(cfg *config, res *monitor.Result) {
 		}
 		for op := 0; op < nops; op++ {
 			switch c := r.Intn(10); {
+			case c == 0 && r.Chance(1, 2): // a message whose nested payloads go corrupt after some requested fields
+				mark := byte(0x61 + (nextID % 26))
+				bad := corruptNestedInput(r, mark)
+				trace = append(trace, "decode-corrupt-nested")
+				cfg.progress.Set("c14", opt.String(), fmt.Sprint(trace))
+				if pi := monitor.Try(func() {
+					dr, err := dec.Decode(bad)
+					if err == nil && dr != nil {
+						// the outer level is valid: nested access must fail cleanly, then the result is closed
+						_, _ = dr.NestedResult(3)
+						_, _ = dr.NestedResults(3)
+						_, _ = dr.NestedResults(4)
+						_, _ = dr.FieldData(3, 1)
+						_ = dr.Close()
+					}
+				}); pi != nil {
+					x.input = bad
+					x.viol("CorruptNested", "panic", "decoding / reading a message with a corrupt nested payload panicked: "+pi.Value, nil, map[string]any{"trace": fmt.Sprint(trace), "frame": pi.Frame})
+				}
+				x.evals++
 			case c < 4 && len(live) < 4: // decode
 				sh := shapes[r.Intn(len(shapes))]
 				mark := byte(0x41 + (nextID % 26))
@@ -327,4 +347,34 @@ func bigram(trace []string) string {
 		return "-"
 	}
 	return kind(trace[n-2]) + ">" + kind(trace[n-1])
+}
+
+// corruptNestedInput builds a message that is well-formed at the top level but whose nested payloads
+// (tags 3 and 4 of c14Def) become malformed after a few requested fields.
+func corruptNestedInput(r *monitor.Rand, mark byte) []byte {
+	var b []byte
+	b = refwire.AppendKey(b, 1, 0)
+	b = refwire.AppendVarint(b, uint64(mark))
+	for i := 0; i < 1+r.Intn(3); i++ {
+		var p []byte
+		p = refwire.AppendKey(p, 1, 0)
+		p = refwire.AppendVarint(p, uint64(mark)<<8|0x66)
+		p = refwire.AppendKey(p, 2, 2)
+		p = refwire.AppendLen(p, []byte{mark, 'b', 'a', 'd'})
+		switch r.Intn(3) {
+		case 0:
+			p = append(p, 0x1a, 0x7f) // length-delimited field declaring more than is left
+		case 1:
+			p = append(p, 0x08, 0x80) // truncated varint
+		default:
+			p = append(p, 0x0b) // group wire type
+		}
+		tag := 3
+		if r.Chance(1, 3) {
+			tag = 4
+		}
+		b = refwire.AppendKey(b, tag, 2)
+		b = refwire.AppendLen(b, p)
+	}
+	return b
 }
